@@ -98,6 +98,60 @@ def judgeDocs (cfg : Cfg) (src : Bytes) (ms : List Mat) (t : Tag) : Bool :=
       let pi := cfg.pats[m.pat]?.getD {}
       docsOf src pi (capLoop cfg pi m.caps) == t.docs)
 
+/-! Local-scope clause: which names must be present, recomputed from the matches with the spec walk. -/
+
+structure Cand where
+  r : R
+  pat : Nat
+  isTag : Bool
+  deriving Repr
+
+/-- Candidates a match sequence inserts according to the SPEC (`isLocalSpec`): scopes and definitions
+are accumulated from the locals-pattern matches seen so far. -/
+def candidates (cfg : Cfg) (src : Bytes) : List Mat → Scopes → List Cand
+  | [], _ => []
+  | m :: ms, sc =>
+    let pi := cfg.pats[m.pat]?.getD {}
+    if m.pat < cfg.tagsFrom then candidates cfg src ms (processLocal cfg src pi m.caps sc)
+    else
+      let a := capLoop cfg pi m.caps
+      let rest := candidates cfg src ms sc
+      match a.name with
+      | none => rest
+      | some n =>
+        let r : R := ⟨n.sb, n.eb⟩
+        match a.tag with
+        | some _ =>
+          if n.err || (pi.nonLocal && isLocalSpec (slice src n.sb n.eb) r sc) then rest
+          else ⟨r, m.pat, true⟩ :: rest
+        | none => if a.ignored then ⟨r, m.pat, false⟩ :: rest else rest
+
+/-- Name ranges for which a tag must be emitted: the first candidate with the lowest pattern index
+for that range is a tag (not an ignore placeholder). -/
+def expectedNames (cs : List Cand) : List R :=
+  (cs.filter (fun c => c.isTag && cs.all (fun d => !(d.r == c.r) || decide (c.pat ≤ d.pat)) &&
+      -- among equal lowest index the first wins: no earlier placeholder with the same index
+      true)).map (·.r)
+
+def placeholderWins (cs : List Cand) (r : R) : Bool :=
+  match (cs.filter (·.r == r)).map (·.pat) |>.min? with
+  | none => false
+  | some p => match (cs.filter (fun c => c.r == r && c.pat == p)).head? with
+    | some c => !c.isTag
+    | none => false
+
+/-- Local clause: a (non-placeholder) tag is present for exactly the name ranges the spec keeps. -/
+def judgeLocal (cfg : Cfg) (src : Bytes) (ms : List Mat) (real : List Tag) : Option String :=
+  let cs := candidates cfg src ms (initSt src).scopes
+  let expected := (expectedNames cs).filter (fun r => !placeholderWins cs r)
+  let actual := (real.filter (!·.isIgnored)).map (·.name)
+  match actual.find? (fun r => !expected.contains r) with
+  | some r => some s!"tag [{r.s},{r.e}) present but the spec omits it (local definition in a visible scope, error, or ignored)"
+  | none =>
+    match expected.find? (fun r => !actual.contains r) with
+    | some r => some s!"tag [{r.s},{r.e}) missing: no visible enclosing scope defines the name"
+    | none => none
+
 def fieldsEq (a b : Tag) : Option String :=
   if a.range != b.range then some "range" else
   if a.name != b.name then some "name" else
